@@ -14,10 +14,43 @@ def _call(op, arrs):
 def _mp_oracle(op, col):
     import mpmath as mp
     mp.mp.dps = 40
-    D = len(col); x0 = mp.mpf(float(col[0]))
+    cplx = any(isinstance(v, complex) or numpy.iscomplexobj(v) for v in col)
+    conv = (lambda v: mp.mpc(complex(v))) if cplx else (lambda v: mp.mpf(float(v)))
+    D = len(col); x0 = conv(col[0])
     der = [op.mp(x0)] + [mp.diff(op.mp, x0, n) for n in range(1, D)]
-    xs = [mp.mpf(float(v)) for v in col]
-    return [float(v) for v in SI.compose_faa(xs, der)]
+    xs = [conv(v) for v in col]
+    out = SI.compose_faa(xs, der)
+    return [complex(v) for v in out] if cplx else [float(v) for v in out]
+
+COMPLEX_OPS = ('exp', 'expm1', 'log', 'log1p', 'sqrt', 'sin', 'cos', 'tan', 'arcsin', 'arccos', 'arctan', 'sinh', 'cosh', 'tanh', 'reciprocal', 'square', 'negative',
+               'pow[3]', 'pow[2.5]', 'pow[-2]', 'rpow[2]')
+
+def complex_pass(rng, tier):
+    """C01 for complex coefficients: analytic elementary functions on polynomials whose coefficients (all orders) have non-zero imaginary
+    parts, against the Faa di Bruno composition of mpmath's complex derivatives"""
+    a = native.algopy(); U = a.UTPM
+    for op in optable.table():
+        if op.name not in COMPLEX_OPS or op.mp is None: continue
+        for (D, P) in ((2, 1), (4, 2)) if tier == 'quick' else ((1, 1), (2, 1), (3, 2), (5, 2)):
+            for shp in ((), (2,)):
+                x = optable.gen_input(rng, D, P, shp, op.dom, cplx=True, kind=op.kind, name=op.name)
+                x[0] = x[0].real + 0.25j * x[0].imag                      # stay close to the real domain of smoothness
+                case = {'op': op.name + '[complex]', 'D': D, 'P': P, 'shapes': [list(shp)]}
+                try:
+                    with numpy.errstate(all='ignore'): r = op.f(U(x.copy()))
+                except Exception as e: yield op.name, case, 'raises %s: %s' % (type(e).__name__, str(e)[:100]); continue
+                if not numpy.all(numpy.isfinite(r.data)): continue
+                fail = None
+                for pos in list(numpy.ndindex(*x.shape[1:]))[:3]:
+                    col = [complex(x[(d,) + pos]) for d in range(D)]
+                    try: exp = _mp_oracle(op, col)
+                    except Exception: break
+                    got = [complex(r.data[(d,) + pos]) for d in range(D)]
+                    sc = max(1.0, max(abs(v) for v in exp))
+                    for d in range(D):
+                        if not abs(got[d] - exp[d]) <= max(op.tol, 1e-8) * sc: fail = 'complex coefficients: coefficient %d at %s: got %r, (1/d!) d^d/dt^d f(x(t)) = %r' % (d, pos, got[d], exp[d]); break
+                    if fail: break
+                yield op.name, case, fail
 
 
 def run(rng, tier, want=('C01', 'C10', 'C11', 'C12', 'C13', 'C14')):
